@@ -56,6 +56,10 @@ func boolCases() []boolCase {
 	cs = append(cs, boolCase{"underef", "skipRecvDeref",
 		"package p\n\ntype T struct{ f int }\n\nfunc (t *T) ptrMethod() int { return t.f }\nfunc (t T) valMethod() int  { return t.f }\n\nfunc use(k *T) int {\n\ta := (*k).f //@field\n\tb := (*k).ptrMethod() //@ptr-method\n\tc := (*k).valMethod() //@val-method\n\treturn a + b + c\n}\n",
 		[]string{"field", "val-method"}, []string{"field", "ptr-method", "val-method"}, nil})
+	// unnamedResult.checkExported: "whether to check exported functions"
+	cs = append(cs, boolCase{"unnamedResult", "checkExported",
+		"package p\n\nfunc Exported() (float64, float64) { //@exported\n\treturn 0, 0\n}\n\nfunc unexported() (float64, float64) { //@unexported\n\treturn 0, 0\n}\n\ntype T struct{}\n\nfunc (T) Method() (string, string) { //@exported-method\n\treturn \"\", \"\"\n}\n",
+		[]string{"exported", "exported-method", "unexported"}, []string{"unexported"}, nil})
 	return cs
 }
 
